@@ -10,8 +10,9 @@ CONSTANTS
   Sizes = {3}
   Pads = {0, 1, 2, 3}
   Props = {0}
-  CtlFroms = {2, 3, 4, 6, 8, 11, 16, 22}
-  CtlSizes = {1, 3}
+  CtlFroms = {2, 3, 4, 6, 11, 22}
+  MemSizes = {1, 3, 0}
+  LockBits = {1, 9, 12}
   CtlTypes = {1, 2}
   TwoCtl = TRUE
   OldLens = {1, 5}
